@@ -116,8 +116,14 @@ def compute_features(sig, fs, f_range, center_extrema='peak', burst_method='cycl
     # Ensure kwargs are a dictionaries
     if burst_method == 'amp' and not isinstance(burst_kwargs, dict):
         burst_kwargs = {}
+    elif isinstance(burst_kwargs, dict):
+        # Prevent overwriting the dictionary passed in
+        burst_kwargs = burst_kwargs.copy()
 
-    if not isinstance(threshold_kwargs, dict):
+    if isinstance(threshold_kwargs, dict):
+        # Prevent overwriting the dictionary passed in
+        threshold_kwargs = threshold_kwargs.copy()
+    else:
         threshold_kwargs = {}
         warnings.warn("""
             No burst detection thresholds are provided. This is not recommended. Please
